@@ -116,3 +116,9 @@ impl Encoder<OutboundIn> for ServerCodec {
         }
     }
 }
+
+#[cfg(feature = "verif-hooks")]
+pub mod verif {
+    pub use super::ServerCodec;
+    pub use super::new_codec;
+}
